@@ -71,7 +71,11 @@ def run(ctx):
                 if persists:
                     ctx.violation("property_fails", msg, case_json, True)
                 else:
-                    ctx.count("random_collisions_seen")
+                    # the result is wrong under THIS seed only: not "a random collision" (probability about 10^-9 for orbits of this size) but a
+                    # seed-dependent defect of the hashing (e.g. a seed that blanks a coordinate); reported with the seed as part of the replay
+                    ctx.count("seed_specific_failures")
+                    ctx.violation("property_fails", msg + f" [only under random_seed={cfgd.get('random_seed')}; three other seeds give the right answer]",
+                                  dict(case_json, seed_specific=True), True)
             coq_cases.append(bfsrun.coq_case(gd, graph, starts, kw, None, obs))
             metas.append(case_json)
     ctx.sample(metas[0]); ctx.sample(metas[len(metas) // 2])
@@ -90,7 +94,7 @@ def known_input_defect(gd, cfgd, obs):
 
 def replay_case(case):
     gd, cfgd, starts, kw = case["graph"], case["config"], case["starts"], case["bfs"]
-    for s in (cfgd.get("random_seed"), 11, 222, 3333):
+    for s in ((cfgd.get("random_seed"),) if case.get("seed_specific") else (cfgd.get("random_seed"), 11, 222, 3333)):
         c2 = dict(cfgd, random_seed=s)
         obs, _ = bfsrun.observe(G.make_graph(gd, c2), starts, kw, None)
         msg = bfsrun.oracle_full(gd, starts, obs)
